@@ -117,6 +117,9 @@ type qreply struct {
 }
 type qcall struct {
 	pos   string
+	off   int    // QueryRequest.Offset: the server skips that many events from Pos (C16's contract)
+	limit int    // QueryRequest.Limit
+	query string // QueryRequest.Query
 	reply chan qreply
 }
 type sclient struct {
@@ -128,7 +131,7 @@ type sclient struct {
 var errDead = errors.New("connection closed")
 
 func (c *sclient) Query(ctx context.Context, req *api.QueryRequest, res *api.QueryResult) error {
-	call := &qcall{pos: req.Pos, reply: make(chan qreply, 1)}
+	call := &qcall{pos: req.Pos, off: req.Offset, limit: req.Limit, query: req.Query, reply: make(chan qreply, 1)}
 	select {
 	case c.arrive <- call:
 	case <-c.dead:
@@ -139,6 +142,7 @@ func (c *sclient) Query(ctx context.Context, req *api.QueryRequest, res *api.Que
 		res.Events = r.events
 		res.NextQueryRequest = *req
 		res.NextQueryRequest.Pos = r.next
+		res.NextQueryRequest.Offset = 0 // the server has applied it
 		res.NextQueryRequest.ReqId = 77
 		res.Err = r.serr
 		return r.err
@@ -240,6 +244,7 @@ type driver struct {
 	pq      *qcall        // inquery: the pending query
 	ps      *scall        // insink: the pending sink call
 	psStart int           // insink: position the batch was read at
+	query   string        // the Query text of the first request
 	gate    chan struct{} // head: the worker sleeps after a failure; closing the gate ends the sleep
 	bufQ    *qcall        // head/accepted: the worker already sits in its next Query (no sleep on that path)
 	bufExit bool          // head/accepted: the worker already left the loop
@@ -249,6 +254,19 @@ type driver struct {
 	o   oracle
 	tag map[string]int
 	err error
+}
+
+// effPos: where the server starts reading for the request: Pos moved by Offset (not below 0)
+func effPos(q *qcall) (int, bool) {
+	pos, ok := posOf(q.pos)
+	if !ok {
+		return 0, false
+	}
+	pos += q.off
+	if pos < 0 {
+		pos = 0
+	}
+	return pos, true
 }
 
 func posOf(s string) (int, bool) {
@@ -425,11 +443,22 @@ func (d *driver) apply(op Op) bool {
 		}
 		q := d.bufQ
 		d.bufQ = nil
-		pos, okp := posOf(q.pos)
+		pos, okp := effPos(q)
 		if !okp {
 			q.reply <- qreply{err: errDead}
 			d.other(2, "request-position-unknown", fmt.Sprintf("request position %q was never issued by the server", q.pos))
 			return false
+		}
+		if q.off != 0 {
+			d.tag["request-with-offset"]++
+		}
+		if q.limit <= 0 {
+			d.o.fail("request-without-limit", fmt.Sprintf("request with Limit %d: the server returns nothing for it", q.limit))
+		}
+		if d.query == "" {
+			d.query = q.query
+		} else if q.query != d.query {
+			d.o.fail("request-query-changed", fmt.Sprintf("request query %q, the first request asked %q", q.query, d.query))
 		}
 		d.pq = q
 		d.phase = "inquery"
@@ -449,7 +478,7 @@ func (d *driver) apply(op Op) bool {
 		if d.phase != "inquery" {
 			return true
 		}
-		pos, _ := posOf(d.pq.pos)
+		pos, _ := effPos(d.pq)
 		lo, hi := pos, pos+op.N
 		if lo > len(d.store) {
 			lo = len(d.store)
@@ -477,6 +506,9 @@ func (d *driver) apply(op Op) bool {
 			return true
 		}
 		r := qreply{next: q.pos}
+		if q.off != 0 {
+			r.next = strconv.Itoa(pos)
+		}
 		switch op.Out {
 		case "ok", "empty":
 			if op.G {
@@ -866,6 +898,15 @@ func main() {
 				c.Add(*cs)
 				return c.Finish(rule)
 			}
+			var sup SupReplay
+			if err := FromJSON(c.Replay, &sup); err == nil && sup.Sup {
+				cs, err := runSup(sup)
+				if err != nil {
+					return err
+				}
+				c.Add(*cs)
+				return c.Finish(rule)
+			}
 			var srp SinkReplay
 			if err := FromJSON(c.Replay, &srp); err == nil && srp.Sink {
 				cs, err := runSink(srp)
@@ -932,6 +973,20 @@ func main() {
 				return serrs[i]
 			}
 			c.Add(*sres[i])
+		}
+		// the real supervisor (several workers, configuration reloads, restarts) driven step by step
+		supJobs := supCorpus()
+		for i := 0; i < c.N(24); i++ {
+			supJobs = append(supJobs, genSup(c.Rng.Fork()))
+		}
+		supRes := make([]*Case, len(supJobs))
+		supErrs := make([]error, len(supJobs))
+		Parallel(len(supJobs), 8, func(i int) { supRes[i], supErrs[i] = runSup(supJobs[i]) })
+		for i := range supJobs {
+			if supErrs[i] != nil {
+				return supErrs[i]
+			}
+			c.Add(*supRes[i])
 		}
 		return c.Finish(rule)
 	})
